@@ -36,6 +36,26 @@ CHECKS["C10"] = dict(
     technique="bounded-write dataflow (difference constraints) + guard-ordering/dominance checks + path exploration",
     design="3/C10")
 
+CHECKS["C12"] = dict(
+    text="Decides, on all paths of the address makers, parsers and converters: (R1) a snprintf truncation can never be reported as success "
+         "(rc < capacity is a fact on every success return); (R2) the port is range-checked in strtol's own width and must start with a digit; "
+         "(R3) every write is within its buffer and the only thing a public entry demands from its caller is the documented (buffer, capacity) "
+         "contract (bounded-write analysis; the DNS-name length lemma is derived from xcm_dns_is_valid_name's body); (R4) each of the eight "
+         "transport names is validated by the parser for that name; (R5) UX/UXF makers reject over-long names first. Not decided: that make and "
+         "parse are inverses for all inputs (a relation between two computations), inet_pton/inet_ntop.",
+    note=TRUSTED + " A parse cursor s+k is assumed to stay inside its string when string lengths are compared (strlen(s+k) <= strlen(s)).",
+    technique="bounded-write/value-range dataflow + idiom checks decided from path facts + table agreement",
+    design="3/C12")
+CHECKS["C19"] = dict(
+    text="Decides structural necessary conditions only (three clauses of the design plus the replace/copy ordering): entries hold private copies "
+         "with the copied length; lookups return an entry only on the equal edge of the name (and type) comparison and each typed getter asks "
+         "for its own type; add deletes the same name and copies before it releases, clone/add_all go through add, equal compares count, "
+         "name+type, length and bytes, del unlinks before destroying; the path component array is bounded. Not decided: equivalence with a "
+         "finite map over all operation sequences, canonical print/parse round trip.",
+    note=TRUSTED,
+    technique="who-may-write/value-origin queries + dominance checks + bounded-write dataflow",
+    design="3/C19")
+
 NOT_APPLICABLE = {}
 
 
